@@ -37,6 +37,7 @@ type Engine struct {
 	sentinel     map[string]bool // heap keys (G|...) of sentinel globals
 	uncontracted map[string]int
 	assumedUsed  map[string]bool
+	atCallSeen   map[*Clause]bool
 	inlinedUsed  map[string]bool
 	funcConsts   map[string]string
 	abort        bool
